@@ -6,7 +6,7 @@ OFF = {'Clipper2Lib::ClipperOffset::AddPaths(': 'stub_off_addpaths', 'Clipper2Li
 META = dict(
   level_text='Bounded model checking of the real marshalling functions (round trip, header fields, every access inside the allocation by CBMC bounds checks) for all coordinate values on a family of path-set shapes, and stub-and-observe checks of the exported functions: the engine entry points are replaced at IR level by recorders and the solver shows, for all argument values, that each recorder saw exactly the corresponding argument and that the returned array is the marshalled recorder output.',
   level_note='Shapes (path counts and lengths) are concrete per obligation and listed in the evidence; coordinates, z values and all scalar arguments are symbolic. Recorders replace ClipperBase::AddPaths/ExecuteInternal/CleanUp, Clipper64::BuildPaths64, ClipperOffset::AddPath(s)/Execute: what those do with the arguments is the subject of other properties.',
-  functions=['CreateCPathsFromPathsT<long>', 'ConvertCPathsToPathsT<long>', 'ConvertCPathToPathT<long>', 'GetPathCountAndCPathsArrayLen<long>', 'BooleanOp64', 'InflatePaths64', 'InflatePath64', 'Clipper64::Execute (inline wrappers)', 'ClipperOffset::ClipperOffset', 'CreateCPolyTree64', 'CreateCPolyPath64', 'GetPolyPathArrayLen64', 'RectClip64 (export)', 'RectClipLines64 (export)', 'CRectToRect', 'CRectIsEmpty'],
+  functions=['BooleanOp_PolyTree64', 'BooleanOpD', 'BooleanOp_PolyTreeD', 'CreateCPathsFromPathsT<long>', 'ConvertCPathsToPathsT<long>', 'ConvertCPathToPathT<long>', 'GetPathCountAndCPathsArrayLen<long>', 'BooleanOp64', 'InflatePaths64', 'InflatePath64', 'Clipper64::Execute (inline wrappers)', 'ClipperOffset::ClipperOffset', 'CreateCPolyTree64', 'CreateCPolyPath64', 'GetPolyPathArrayLen64', 'RectClip64 (export)', 'RectClipLines64 (export)', 'CRectToRect', 'CRectIsEmpty'],
   assumptions=['path-set shapes: 3 paths with lengths from {0,1,2} (all-empty, leading/trailing/middle empty); single 3-point paths for the forwarding harnesses'],
   outside=['polytree layouts with more than the listed shapes', 'paths longer than 3 points'],
 )
